@@ -131,23 +131,23 @@ fn run_shape<OC: GenericConfig<D, F = F>>(s: &Value, selftest_all: bool) -> Vec<
             let bits = common.config.fri_config.proof_of_work_bits;
             let zeros = if c == "pow_short1" { bits.wrapping_sub(1) } else { bits };
             if bits >= 1 && bits <= 10 && !common.config.zero_knowledge {
-                let found = find_pow_witness(&honest, &own_vd, &common, zeros, 6000, &mut r);
-                if found.is_none() {
-                    out.push(json!({"id": id, "class": class, "note": "no witness found", "honest_response_zeros": pow_response(&honest, &own_vd, &common).map(|x| x.leading_zeros())}));
-                }
-                if let Some(w) = found {
-                    let mut k = plonky2::verif_knobs::Knobs::default();
-                    k.pow_witness = Some(w);
-                    if let Ok(p) = inner.prove(Some(k)) {
-                        let got = pow_response(&p, &own_vd, &common).map(|x| x.leading_zeros());
-                        if got == Some(zeros) {
-                            cases.push((p, own_vd.clone(), json!({"pow_witness": w, "leading_zeros": zeros, "pow_bits": bits})));
-                        } else {
-                            out.push(json!({"id": id, "class": class, "note": "the re-proved transcript differs", "got": got, "want": zeros,
-                                "same_wires_cap": p.proof.wires_cap == honest.proof.wires_cap, "same_zs_cap": p.proof.plonk_zs_partial_products_cap == honest.proof.plonk_zs_partial_products_cap,
-                                "same_quot_cap": p.proof.quotient_polys_cap == honest.proof.quotient_polys_cap, "same_openings": p.proof.openings == honest.proof.openings,
-                                "same_final": p.proof.opening_proof.final_poly == honest.proof.opening_proof.final_poly,
-                                "same_pis": p.public_inputs == honest.public_inputs, "w_used": p.proof.opening_proof.pow_witness.to_canonical_u64(), "w": w}));
+                // one fixed assignment: the transcript before the grinding witness is then the same for every witness
+                if let Some(a) = inner.fixed_assignment() {
+                    if let Ok(base) = inner.prove_assignment(&a, None) {
+                        match find_pow_witness(&base, &own_vd, &common, zeros, 8000, &mut r) {
+                            None => out.push(json!({"id": id, "class": class, "note": "no witness found within the budget"})),
+                            Some(w) => {
+                                let mut k = plonky2::verif_knobs::Knobs::default();
+                                k.pow_witness = Some(w);
+                                if let Ok(p) = inner.prove_assignment(&a, Some(k)) {
+                                    let got = pow_response(&p, &own_vd, &common).map(|x| x.leading_zeros());
+                                    if got == Some(zeros) {
+                                        cases.push((p, own_vd.clone(), json!({"pow_witness": w, "leading_zeros": zeros, "pow_bits": bits})));
+                                    } else {
+                                        out.push(json!({"id": id, "class": class, "note": "the re-proved transcript differs", "got": got, "want": zeros}));
+                                    }
+                                }
+                            }
                         }
                     }
                 }
